@@ -288,8 +288,24 @@ def r08e(model: Model, rr: RuleResult):
     cfg = cfg_of(lfi)
     names, exprs = expr_closure(cfg, cfg.node_for(mc[0]), srcs)
     direct = [d for d in cfg.reaching(cfg.node_for(mc[0]), norm(srcs))] if isinstance(srcs, ast.Name) else []
-    if direct and all(d.value is not None and "sorted(" in norm(d.value) for d in direct):
-        rr.ok("config.load: master sources = tuple(sorted(...)) of the collected set")
+    def sorted_on_absolute(v) -> Optional[bool]:
+        # tuple(sorted(<abspath(p) for p in srcs>))  or  sorted(srcs, key=abspath)
+        for c in ast.walk(v):
+            if isinstance(c, ast.Call) and norm(c.func) == "sorted" and c.args:
+                a = c.args[0]
+                key = kwarg(c, "key")
+                if key is not None and ("abspath" in norm(key) or "resolve" in norm(key)):
+                    return True
+                if isinstance(a, (ast.GeneratorExp, ast.ListComp)) and ("abspath(" in norm(a.elt) or ".resolve()" in norm(a.elt)):
+                    return True
+                return False
+        return None
+    verdicts = [sorted_on_absolute(d.value) for d in direct if d.value is not None]
+    if direct and verdicts and all(v is True for v in verdicts):
+        rr.ok("config.load: master sources = tuple(sorted(absolute paths)) of the collected set")
+    elif direct and any(v is False for v in verdicts):
+        rr.bad(lfi, mc[0], "master sources are sorted by the way their paths were spelled (relative to the working / config directory) and made absolute "
+               "afterwards: source order, hence glyph order, depends on where the build is started from", construct="config.load: sorted before abspath")
     else:
         rr.bad(lfi, mc[0], "master sources are not sorted after being collected in a set / from glob", construct=short(mc[0], 120))
     sfi = model.func("config", "load")
